@@ -175,31 +175,9 @@ func unwrapLoad(v ssa.Value) ssa.Value {
 		}
 		// field of a local struct variable assigned exactly once
 		if fa, ok := u.X.(*ssa.FieldAddr); ok {
-			if la, ok := fa.X.(*ssa.Alloc); ok && !allocCaptured(la) {
-				var vals []ssa.Value
-				whole := false
-				for _, r := range refs(la) {
-					switch x := r.(type) {
-					case *ssa.FieldAddr:
-						if x.Field != fa.Field {
-							continue
-						}
-						for _, rr := range refs(x) {
-							if st, ok := rr.(*ssa.Store); ok && st.Addr == ssa.Value(x) {
-								vals = append(vals, st.Val)
-							}
-						}
-					case *ssa.Store:
-						if x.Addr == ssa.Value(la) {
-							whole = true
-						}
-					case *ssa.UnOp:
-					default:
-						whole = true // address escapes
-					}
-				}
-				if !whole && len(vals) == 1 {
-					v = vals[0]
+			if la, ok := resolveCell(fa.X).(*ssa.Alloc); ok {
+				if fv := localFieldValue(la, fa.Field, 0); fv != nil {
+					v = fv
 					continue
 				}
 			}
@@ -217,6 +195,173 @@ func unwrapLoad(v ssa.Value) ssa.Value {
 		v = sts[0].Val
 	}
 	return v
+}
+
+// localFieldValue: the single value ever stored into field f of the local
+// struct variable la (directly, or through one whole-struct copy of another
+// local such as a composite literal), or nil.
+func localFieldValue(la *ssa.Alloc, f int, depth int) ssa.Value {
+	if depth > 3 {
+		return nil
+	}
+	var vals []ssa.Value
+	var wholes []ssa.Value
+	// the cell and the free variables of closures that are bound to it
+	cells := []ssa.Value{la}
+	for i := 0; i < len(cells); i++ {
+		for _, r := range refs(cells[i]) {
+			if mc, ok := r.(*ssa.MakeClosure); ok {
+				fn := mc.Fn.(*ssa.Function)
+				for j, b := range mc.Bindings {
+					if b == cells[i] && j < len(fn.FreeVars) {
+						cells = append(cells, fn.FreeVars[j])
+					}
+				}
+			}
+		}
+	}
+	var all []ssa.Instruction
+	for _, c := range cells {
+		all = append(all, refs(c)...)
+	}
+	isCell := func(v ssa.Value) bool {
+		for _, c := range cells {
+			if c == v {
+				return true
+			}
+		}
+		return false
+	}
+	for _, r := range all {
+		switch x := r.(type) {
+		case *ssa.MakeClosure:
+			// capture: the closure's accesses are in the list
+		case *ssa.FieldAddr:
+			for _, rr := range refs(x) {
+				switch y := rr.(type) {
+				case *ssa.Store:
+					if y.Addr == ssa.Value(x) {
+						if x.Field == f {
+							vals = append(vals, y.Val)
+						}
+					} else {
+						return nil // the field's address is stored somewhere
+					}
+				case *ssa.UnOp:
+				default:
+					if x.Field == f {
+						return nil // the field's address escapes
+					}
+				}
+			}
+		case *ssa.Store:
+			if isCell(x.Addr) {
+				wholes = append(wholes, x.Val)
+			} else {
+				return nil
+			}
+		case *ssa.UnOp, *ssa.DebugRef:
+		default:
+			return nil // address escapes
+		}
+	}
+	if len(wholes) == 0 && len(vals) == 1 {
+		return vals[0]
+	}
+	if len(wholes) == 1 && len(vals) == 0 {
+		if ld, ok := wholes[0].(*ssa.UnOp); ok && ld.Op == token.MUL {
+			if src, ok := ld.X.(*ssa.Alloc); ok {
+				return localFieldValue(src, f, depth+1)
+			}
+		}
+	}
+	return nil
+}
+
+// unwrapField resolves reads of fields of local struct variables that are set
+// exactly once (parameter objects, composite literals) to the value stored in
+// the field; other loads are left alone.
+func unwrapField(v ssa.Value) ssa.Value {
+	for i := 0; i < 6; i++ {
+		u, ok := v.(*ssa.UnOp)
+		if !ok || u.Op != token.MUL {
+			return v
+		}
+		fa, ok := u.X.(*ssa.FieldAddr)
+		if !ok {
+			return v
+		}
+		la, ok := resolveCell(fa.X).(*ssa.Alloc)
+		if !ok {
+			return v
+		}
+		fv := localFieldValue(la, fa.Field, 0)
+		if fv == nil {
+			return v
+		}
+		v = fv
+	}
+	return v
+}
+
+// fieldRead: v reads field `name` of a struct value; base is that struct value.
+// Covers x.f on an SSA struct value and on a local struct variable that is
+// assigned as a whole exactly once (result := b.(T); … result.f).
+func fieldRead(v ssa.Value) (base ssa.Value, name string, ok bool) {
+	if ct, isCT := v.(*ssa.ChangeType); isCT {
+		v = ct.X
+	}
+	if f, isF := v.(*ssa.Field); isF {
+		return f.X, fieldOf2(f.X.Type(), f.Field), true
+	}
+	u, isU := v.(*ssa.UnOp)
+	if !isU || u.Op != token.MUL {
+		return nil, "", false
+	}
+	fa, isFA := u.X.(*ssa.FieldAddr)
+	if !isFA {
+		return nil, "", false
+	}
+	la, isA := resolveCell(fa.X).(*ssa.Alloc)
+	if !isA {
+		return nil, "", false
+	}
+	var whole []ssa.Value
+	for _, r := range refs(la) {
+		switch x := r.(type) {
+		case *ssa.Store:
+			if x.Addr != ssa.Value(la) {
+				return nil, "", false
+			}
+			whole = append(whole, x.Val)
+		case *ssa.FieldAddr:
+			for _, rr := range refs(x) {
+				if ld, isLoad := rr.(*ssa.UnOp); !isLoad || ld.Op != token.MUL {
+					if _, dbg := rr.(*ssa.DebugRef); !dbg {
+						return nil, "", false
+					}
+				}
+			}
+		case *ssa.UnOp, *ssa.DebugRef:
+		default:
+			return nil, "", false
+		}
+	}
+	if len(whole) != 1 {
+		return nil, "", false
+	}
+	st := la.Type().Underlying().(*types.Pointer).Elem().Underlying().(*types.Struct)
+	return whole[0], st.Field(fa.Field).Name(), true
+}
+
+func fieldOf2(t types.Type, i int) string {
+	if p, ok := t.Underlying().(*types.Pointer); ok {
+		t = p.Elem()
+	}
+	if st, ok := t.Underlying().(*types.Struct); ok && i < st.NumFields() {
+		return st.Field(i).Name()
+	}
+	return ""
 }
 
 // path renders a canonical access path for v so that two evaluations of the
